@@ -80,12 +80,15 @@ pub struct GraphOpts {
     pub readat: usize,
     /// replace every replica by load(save(replica)) before the closing historical reads (C11)
     pub reload_before_readat: bool,
+    /// percentage of transactions that are rolled back instead of committed (C28)
+    pub rollback_pct: u64,
 }
 
 pub const W_DEFAULT: [usize; 10] = [34, 38, 46, 56, 78, 84, 88, 91, 95, 98];
 pub const W_DOC: [usize; 10] = [50, 51, 55, 72, 90, 94, 96, 96, 100, 100];
 pub const W_CONFLICT: [usize; 10] = [50, 50, 52, 70, 94, 96, 96, 96, 100, 100];
 pub const W_RELOAD: [usize; 10] = [40, 46, 50, 62, 74, 76, 76, 78, 96, 98];
+pub const W_ISO: [usize; 10] = [30, 32, 62, 76, 90, 94, 96, 96, 100, 100];
 pub const W_DUP: [usize; 10] = [36, 38, 40, 50, 88, 92, 92, 95, 98, 99];
 
 /// Random program mixing commits, empty commits, isolated commits, merges, out-of-order and
@@ -122,7 +125,11 @@ pub fn graph_scenario(idx: usize, rng: &mut Rng, o: &GraphOpts, family: &str) ->
         let total = w.known.len();
         let c = rng.below(100);
         if c < wt[0] {
-            if total < o.max_changes {
+            if o.rollback_pct > 0 && rng.chance(o.rollback_pct, 100) {
+                let k = 1 + rng.below(4);
+                let front = *rng.pick(&["tx", "tx", "transact", "auto"]);
+                w.rollback_tx(r, rng, &o.prof, k, front);
+            } else if total < o.max_changes {
                 let k = 1 + rng.below(3);
                 w.commit(r, rng, &o.prof, k, None, None);
             }
@@ -162,6 +169,10 @@ pub fn graph_scenario(idx: usize, rng: &mut Rng, o: &GraphOpts, family: &str) ->
             }
             let via = *rng.pick(&["apply", "batch", "each", "loadinc"]);
             w.deliver(r, via, &batch);
+            // C06: whatever a failing call did, the document must still save and load
+            if w.log.last().map(|e| e["res"].as_str().unwrap_or("").starts_with("err")).unwrap_or(false) {
+                w.save_load(r, true, true);
+            }
         } else if c < wt[5] {
             if n < o.max_reps {
                 let actor = if o.dup_actors && rng.chance(1, 3) {
